@@ -111,7 +111,9 @@ func ParsePatterns(docs ...*ast.CommentGroup) (patterns []string, hasDirective b
 			if c == nil {
 				continue
 			}
-			line := strings.TrimSpace(strings.TrimPrefix(c.Text, "//"))
+			// the directive must follow "//" immediately ("// go:embed" is an
+			// ordinary comment for the go tool)
+			line := strings.TrimPrefix(c.Text, "//")
 			args, ok := ParseDirective(line)
 			if !ok {
 				continue
